@@ -316,6 +316,14 @@ def main(mod, argv: list[str] | None = None) -> int:
         print(f"HARNESS-ERROR property={prop} btclib imported from {btclib.__file__}, not {REPO}")
         return 2
 
+    # the checks switch between btclib's two secp256k1 back ends; without the bindings package the
+    # switch is refused by design, which is an environment fault and not a finding
+    import importlib.util
+
+    if importlib.util.find_spec("btclib_secp256k1") is None:
+        print(f"HARNESS-ERROR property={prop} the btclib_secp256k1 bindings are not installed in this interpreter")
+        return 2
+
     if ns.replay:
         return replay(mod, ns.replay)
 
